@@ -118,11 +118,12 @@ theorem seenBy_map_send (hid : HostId) (ns : Ns) (ev : J) (args : List J) (sid :
     by_cases hp : p.1 = sid
     · subst hp
       have hnot : p.1 ∉ ps.map Prod.fst := hnd.1
-      rw [ih hnd.2]
-      simp [hnot]
+      rw [ih hnd.2, if_pos rfl, if_neg hnot, if_pos (Or.inl rfl)]; rfl
     · have hp' : ¬ sid = p.1 := fun h => hp h.symm
       rw [if_neg hp, ih hnd.2]
-      simp [hp']
+      by_cases hin : sid ∈ ps.map Prod.fst
+      · rw [if_pos hin, if_pos (Or.inr hin)]
+      · rw [if_neg hin, if_neg (by rintro (h | h); exact hp' h; exact hin h)]
 
 theorem seenBy_sendCb (cb : Cb) (ns : Ns) (ev : J) (args : List J) (sid : Sid) (h : Host)
     (l : List (Sid × Eio)) (hnd : (l.map Prod.fst).Nodup) :
@@ -136,11 +137,12 @@ theorem seenBy_sendCb (cb : Cb) (ns : Ns) (ev : J) (args : List J) (sid : Sid) (
     by_cases hp : p.1 = sid
     · subst hp
       have hnot : p.1 ∉ ps.map Prod.fst := hnd.1
-      rw [ih _ hnd.2]
-      simp [hnot]
+      rw [ih _ hnd.2, if_pos rfl, if_neg hnot, if_pos (Or.inl rfl)]; rfl
     · have hp' : ¬ sid = p.1 := fun h => hp h.symm
       rw [if_neg hp, ih _ hnd.2]
-      simp [hp']
+      by_cases hin : sid ∈ ps.map Prod.fst
+      · rw [if_pos hin, if_pos (Or.inr hin)]
+      · rw [if_neg hin, if_neg (by rintro (h | h); exact hp' h; exact hin h)]
 
 theorem recipients_nil_of_not_hasNs {s : Rooms.St} {ns : Ns} (hn : hasNs s ns = false) (t : Target)
     (skip : List Sid) : recipients s ns t skip = [] := by
@@ -162,7 +164,7 @@ theorem recipients_nil_of_not_hasNs {s : Rooms.St} {ns : Ns} (hn : hasNs s ns = 
     have : ∀ acc, rs.foldl (fun acc r => mergeBySid acc (roomMembers s ns (some r))) acc = acc := by
       induction rs with
       | nil => intro acc; rfl
-      | cons r rs ih => intro acc; simp only [List.foldl_cons, hno, mergeBySid, ih]
+      | cons r rs ih => intro acc; rw [List.foldl_cons, hno, mergeBySid, ih]
     simp [this]
 
 theorem recipients_fst_nodup {s : Rooms.St} (h : Inv s) (ns : Ns) (t : Target) (skip : List Sid) :
@@ -236,15 +238,116 @@ theorem trigger_seen (fuel : Nat) (h : Host) (key : Str) (id : Nat) (args : Opti
 
 /-! ### one well-formed entry through the listener -/
 
+theorem listenMsg_eq_dispatch {h : Host} {m : Msg} (he : (dispatch h m.toD).err = none) :
+    listenMsg h m = dispatch h m.toD := by
+  unfold listenMsg
+  simp only [he]
+
+theorem dispatch_callback (h : Host) (origin : Option HostId) (key : Str) (ns : Ns) (id : Nat)
+    (args : List J) :
+    dispatch h (Msg.callback origin key ns id args).toD =
+      if origin = some h.id then trigger chainFuel h key id (some args) else { h := h } := by
+  by_cases hq : origin = some h.id <;> simp [Msg.toD, dispatch, handleCallback, hq]
+
 theorem listenMsg_callback (h : Host) (origin : Option HostId) (key : Str) (ns : Ns) (id : Nat)
     (args : List J) :
     listenMsg h (.callback origin key ns id args) =
       if origin = some h.id then trigger chainFuel h key id (some args) else { h := h } := by
-  unfold listenMsg
-  simp only [Msg.toD, dispatch, if_true, handleCallback]
-  split
-  · simp only [trigger_err_none]
-  · rfl
+  have hd := dispatch_callback h origin key ns id args
+  have he : (dispatch h (Msg.callback origin key ns id args).toD).err = none := by
+    rw [hd]
+    split
+    · exact trigger_err_none _ _ _ _ _
+    · rfl
+  rw [listenMsg_eq_dispatch he, hd]
+
+/-- the relay that `_handle_emit` builds from the token in the message -/
+def relayOf (o : HostId) : Option (Str × Ns × Nat) → Option Cb
+  | none => none
+  | some (k, n, i) => some (.relay (some o) k n i)
+
+theorem dispatch_own (h : Host) (m : DMsg) (hown : m.hostId = some h.id)
+    (hm : m.method ≠ some mCallback) : dispatch h m = { h := h } := by
+  simp [dispatch, hm, hown]
+
+theorem dispatch_emit (h : Host) (o : HostId) (ev : Str) (d : Data) (ns : Ns) (to : Target)
+    (skip : Skip) (cb : Option (Str × Ns × Nat)) (ho : o ≠ h.id) (hok : Target.ok to) :
+    dispatch h (Msg.emit o ev d ns to skip cb).toD =
+      { h := (emitLocal h ns to skip.toList (.str ev) d.pack (relayOf o cb)).1,
+        outs := (emitLocal h ns to skip.toList (.str ev) d.pack (relayOf o cb)).2 } := by
+  have ho' : ¬ (some o = some h.id) := by simpa using ho
+  have htk := target_ok hok
+  simp only [Msg.toD, dispatch, Option.some.injEq, mEmit_ne_mCallback, if_false, ho', if_true,
+    handleEmit, htk]
+  cases cb with
+  | none =>
+    simp only [relayOf]
+    cases hn : hasNs h.rooms ns <;> simp [emitLocal, hn]
+  | some c =>
+    obtain ⟨k, n, i⟩ := c
+    simp only [relayOf]
+    cases hn : hasNs h.rooms ns <;> simp [emitLocal, hn]
+
+theorem dispatch_disconnect (h : Host) (o : HostId) (sid : Sid) (ns : Ns) (ho : o ≠ h.id) :
+    dispatch h (Msg.disconnect o sid ns).toD = localDisconnect h sid ns := by
+  have ho' : ¬ (some o = some h.id) := by simpa using ho
+  simp only [Msg.toD, dispatch, Option.some.injEq, mDisconnect_ne_mCallback, mDisconnect_ne_mEmit, if_false, if_true, ho',
+    handleDisconnect, connectedFld, Host.connected]
+  by_cases hc : (eioOf h.rooms ns sid).isSome = true
+  · simp only [hc, if_true]
+  · have hn : eioOf h.rooms ns sid = none := by simpa using hc
+    simp [hn, localDisconnect]
+
+theorem dispatch_enterRoom (h : Host) (o : HostId) (sid : Sid) (ns : Ns) (room : Room)
+    (ho : o ≠ h.id) :
+    dispatch h (Msg.enterRoom o sid ns room).toD =
+      match eioOf h.rooms ns sid with
+      | some eio => { h := { h with rooms := add h.rooms ⟨ns, some room, sid, eio⟩ } }
+      | none => { h := h } := by
+  have ho' : ¬ (some o = some h.id) := by simpa using ho
+  simp only [Msg.toD, dispatch, Option.some.injEq, mEnterRoom_ne_mCallback, mEnterRoom_ne_mEmit, mEnterRoom_ne_mDisconnect,
+    if_false, if_true, ho', handleEnterRoom, connectedFld, Host.connected]
+  by_cases hc : (eioOf h.rooms ns sid).isSome = true
+  · simp only [hc, if_true]
+    cases hq : eioOf h.rooms ns sid <;> rfl
+  · have hn : eioOf h.rooms ns sid = none := by simpa using hc
+    simp [hn]
+
+theorem dispatch_leaveRoom (h : Host) (o : HostId) (sid : Sid) (ns : Ns) (room : Room)
+    (ho : o ≠ h.id) :
+    dispatch h (Msg.leaveRoom o sid ns room).toD =
+      if h.connected ns sid then { h := { h with rooms := Rooms.leave h.rooms ns sid (some room) } }
+      else { h := h } := by
+  have ho' : ¬ (some o = some h.id) := by simpa using ho
+  simp only [Msg.toD, dispatch, Option.some.injEq, mLeaveRoom_ne_mCallback, mLeaveRoom_ne_mEmit, mLeaveRoom_ne_mDisconnect,
+    mLeaveRoom_ne_mEnterRoom, if_false, if_true, ho', handleLeaveRoom, connectedFld]
+  cases hq : h.connected ns sid <;> simp
+
+theorem dispatch_closeRoom (h : Host) (o : HostId) (ns : Ns) (room : Room) (ho : o ≠ h.id) :
+    dispatch h (Msg.closeRoom o ns room).toD =
+      { h := { h with rooms := Rooms.closeRoom h.rooms ns room } } := by
+  have ho' : ¬ (some o = some h.id) := by simpa using ho
+  simp only [Msg.toD, dispatch, Option.some.injEq, mCloseRoom_ne_mCallback, mCloseRoom_ne_mEmit, mCloseRoom_ne_mDisconnect,
+    mCloseRoom_ne_mEnterRoom, mCloseRoom_ne_mLeaveRoom, if_false, if_true, ho', handleCloseRoom]
+
+/-- the host id that published a (non-`callback`) entry -/
+def Msg.origin : Msg → Option HostId
+  | .emit o .. => some o
+  | .callback o .. => o
+  | .disconnect o .. => some o
+  | .enterRoom o .. => some o
+  | .leaveRoom o .. => some o
+  | .closeRoom o .. => some o
+
+/-- a host skips its own entries (all but `callback`) -/
+theorem listenMsg_own (h : Host) (m : Msg) (hm : m.isCb = false) (ho : m.origin = some h.id) :
+    listenMsg h m = { h := h } := by
+  have key : dispatch h m.toD = { h := h } := by
+    apply dispatch_own
+    · cases m <;> simp_all [Msg.toD, Msg.origin]
+    · cases m <;> simp_all [Msg.toD, Msg.isCb]
+  rw [listenMsg_eq_dispatch, key]
+  rw [key]
 
 /-- the room table after a host has applied a channel entry -/
 def roomsAfter (hid : HostId) (r : Rooms.St) : Msg → Rooms.St
@@ -291,6 +394,12 @@ theorem leave_noop_of_not_connected {s : Rooms.St} (hinv : Inv s) {ns : Ns} {sid
   intro h1 _
   exact this h1
 
+theorem relayOf_isSome (o : HostId) (cb : Option (Str × Ns × Nat)) :
+    (relayOf o cb).isSome = cb.isSome := by
+  cases cb with
+  | none => rfl
+  | some c => obtain ⟨k, n, i⟩ := c; rfl
+
 /-- everything one non-`callback` entry does to a host -/
 theorem listenMsg_effect (h : Host) (hinv : Inv h.rooms) (m : Msg) (hm : m.isCb = false)
     (hok : ∀ o ev d ns to skip cb, m = .emit o ev d ns to skip cb → Target.ok to) :
@@ -299,88 +408,61 @@ theorem listenMsg_effect (h : Host) (hinv : Inv h.rooms) (m : Msg) (hm : m.isCb 
     (listenMsg h m).pubs = [] ∧
     (∀ sid, seenBy sid (listenMsg h m).outs = seenAfter h.id h.rooms sid m) ∧
     discEvents (listenMsg h m).outs = discAfter h.id h.rooms m := by
-  cases m with
-  | callback origin key ns id args => cases hm
-  | emit o ev d ns to skip cb =>
-    have htk := target_ok (hok o ev d ns to skip cb rfl)
-    unfold listenMsg
-    simp only [Msg.toD, dispatch, mEmit_ne_mCallback, if_false, roomsAfter, seenAfter, discAfter]
-    by_cases ho : o = h.id
-    · subst ho; simp [seenBy, discEvents]
-    · have ho' : ¬ (some o = some h.id) := by simpa using ho
-      simp only [ho', ho, if_false, if_true, handleEmit, htk]
-      cases cb with
-      | none =>
-        simp only
-        split
-        · rename_i hn
-          simp only [Bool.not_eq_true'] at hn
-          simp [seenBy, discEvents, seenEmit, recipients_nil_of_not_hasNs hn]
-        · have hr := emitLocal_rooms h ns to skip.toList (.str ev) d.pack none
-          refine ⟨hr.1, hr.2.1, hr.2.2, rfl, ?_, ?_⟩
-          · intro sid; exact seenBy_emitLocal h hinv ns to _ _ _ none sid
-          · exact discEvents_emitLocal h ns to _ _ _ none
-      | some c =>
-        obtain ⟨k, n, i⟩ := c
-        simp only
-        split
-        · rename_i hn
-          simp only [Bool.not_eq_true'] at hn
-          simp [seenBy, discEvents, seenEmit, recipients_nil_of_not_hasNs hn]
-        · have hr := emitLocal_rooms h ns to skip.toList (.str ev) d.pack (some (.relay (some o) k n i))
-          refine ⟨hr.1, hr.2.1, hr.2.2, rfl, ?_, ?_⟩
-          · intro sid; exact seenBy_emitLocal h hinv ns to _ _ _ _ sid
-          · exact discEvents_emitLocal h ns to _ _ _ _
-  | disconnect o sid ns =>
-    unfold listenMsg
-    simp only [Msg.toD, dispatch, mDisconnect_ne_mCallback, mDisconnect_ne_mEmit, if_false, if_true,
-      roomsAfter, seenAfter, discAfter]
-    by_cases ho : o = h.id
-    · subst ho; simp [seenBy, discEvents]
-    · have ho' : ¬ (some o = some h.id) := by simpa using ho
-      simp only [ho', ho, if_false, handleDisconnect, connectedFld, Host.connected]
+  by_cases hown : m.origin = some h.id
+  · rw [listenMsg_own h m hm hown]
+    cases m <;> simp_all [Msg.origin, roomsAfter, seenAfter, discAfter, seenBy, discEvents]
+  · cases m with
+    | callback origin key ns id args => cases hm
+    | emit o ev d ns to skip cb =>
+      have ho : o ≠ h.id := by simpa [Msg.origin] using hown
+      have hd := dispatch_emit h o ev d ns to skip cb ho (hok o ev d ns to skip cb rfl)
+      rw [listenMsg_eq_dispatch (by rw [hd]), hd]
+      have hr := emitLocal_rooms h ns to skip.toList (.str ev) d.pack (relayOf o cb)
+      refine ⟨hr.1, hr.2.1, hr.2.2, rfl, ?_, ?_⟩
+      · intro sid
+        simp only [seenAfter, ho, if_false]
+        rw [seenBy_emitLocal h hinv, relayOf_isSome]
+      · exact discEvents_emitLocal h ns to _ _ _ _
+    | disconnect o sid ns =>
+      have ho : o ≠ h.id := by simpa [Msg.origin] using hown
+      have hd := dispatch_disconnect h o sid ns ho
+      have he : (localDisconnect h sid ns).err = none := by
+        unfold localDisconnect; split <;> rfl
+      rw [listenMsg_eq_dispatch (by rw [hd]; exact he), hd]
+      simp only [roomsAfter, seenAfter, discAfter, ho, if_false, localDisconnect]
       cases hq : eioOf h.rooms ns sid with
-      | none =>
-        simp [seenBy, discEvents, disconnect_noop_of_not_connected hinv hq]
+      | none => simp [seenBy, discEvents, disconnect_noop_of_not_connected hinv hq]
       | some eio =>
-        simp only [Option.isSome_some, if_true, localDisconnect, hq, dropSid]
         refine ⟨rfl, rfl, rfl, rfl, ?_, ?_⟩
         · intro x
           by_cases hx : sid = x
           · subst hx; simp [seenBy]
           · simp [seenBy, hx]
         · simp [discEvents]
-  | enterRoom o sid ns room =>
-    unfold listenMsg
-    simp only [Msg.toD, dispatch, mEnterRoom_ne_mCallback, mEnterRoom_ne_mEmit, mEnterRoom_ne_mDisconnect,
-      if_false, if_true, roomsAfter, seenAfter, discAfter]
-    by_cases ho : o = h.id
-    · subst ho; simp [seenBy, discEvents]
-    · have ho' : ¬ (some o = some h.id) := by simpa using ho
-      simp only [ho', ho, if_false, handleEnterRoom, connectedFld, Host.connected]
-      cases hq : eioOf h.rooms ns sid with
-      | none => simp [seenBy, discEvents]
-      | some eio => simp [seenBy, discEvents, hq]
-  | leaveRoom o sid ns room =>
-    unfold listenMsg
-    simp only [Msg.toD, dispatch, mLeaveRoom_ne_mCallback, mLeaveRoom_ne_mEmit, mLeaveRoom_ne_mDisconnect,
-      mLeaveRoom_ne_mEnterRoom, if_false, if_true, roomsAfter, seenAfter, discAfter]
-    by_cases ho : o = h.id
-    · subst ho; simp [seenBy, discEvents]
-    · have ho' : ¬ (some o = some h.id) := by simpa using ho
-      simp only [ho', ho, if_false, handleLeaveRoom, connectedFld, Host.connected]
-      cases hq : eioOf h.rooms ns sid with
-      | none => simp [seenBy, discEvents, leave_noop_of_not_connected hinv (some room) hq]
-      | some eio => simp [seenBy, discEvents]
-  | closeRoom o ns room =>
-    unfold listenMsg
-    simp only [Msg.toD, dispatch, mCloseRoom_ne_mCallback, mCloseRoom_ne_mEmit, mCloseRoom_ne_mDisconnect,
-      mCloseRoom_ne_mEnterRoom, mCloseRoom_ne_mLeaveRoom, if_false, if_true, roomsAfter, seenAfter,
-      discAfter]
-    by_cases ho : o = h.id
-    · subst ho; simp [seenBy, discEvents]
-    · have ho' : ¬ (some o = some h.id) := by simpa using ho
-      simp [ho', ho, handleCloseRoom, seenBy, discEvents]
+    | enterRoom o sid ns room =>
+      have ho : o ≠ h.id := by simpa [Msg.origin] using hown
+      have hd := dispatch_enterRoom h o sid ns room ho
+      have he : (dispatch h (Msg.enterRoom o sid ns room).toD).err = none := by
+        rw [hd]; split <;> rfl
+      rw [listenMsg_eq_dispatch he, hd]
+      simp only [roomsAfter, seenAfter, discAfter, ho, if_false]
+      cases hq : eioOf h.rooms ns sid <;> simp [seenBy, discEvents]
+    | leaveRoom o sid ns room =>
+      have ho : o ≠ h.id := by simpa [Msg.origin] using hown
+      have hd := dispatch_leaveRoom h o sid ns room ho
+      have he : (dispatch h (Msg.leaveRoom o sid ns room).toD).err = none := by
+        rw [hd]; split <;> rfl
+      rw [listenMsg_eq_dispatch he, hd]
+      simp only [roomsAfter, seenAfter, discAfter, ho, if_false, Host.connected]
+      by_cases hc : (eioOf h.rooms ns sid).isSome = true
+      · simp [hc, seenBy, discEvents]
+      · have hq : eioOf h.rooms ns sid = none := by simpa using hc
+        simp [hq, seenBy, discEvents, leave_noop_of_not_connected hinv (some room) hq]
+    | closeRoom o ns room =>
+      have ho : o ≠ h.id := by simpa [Msg.origin] using hown
+      have hd := dispatch_closeRoom h o ns room ho
+      rw [listenMsg_eq_dispatch (by rw [hd]), hd]
+      simp [roomsAfter, seenAfter, discAfter, ho, seenBy, discEvents]
 
 /-- everything a `callback` entry does to a host, as far as rooms and clients are concerned -/
 theorem listenMsg_cb_effect (h : Host) (m : Msg) (hm : m.isCb = true) :
